@@ -9,6 +9,7 @@ from . import c01
 from .c02 import cb_invocations, cbset_leaf
 
 TITLE = "TLS sessions authenticate the peer as configured and never downgrade"
+TECHNIQUE = 'custom static analysis over clang-14 CFG facts: call-site rules over OpenSSL primitives (constant command/flag words), typestate of the TLS context (no plaintext path when TLS was requested), dominance'
 TE = "iora::network::TcpEngine"
 FILE = "iora/network/detail/tcp_engine.hpp"
 HC = "iora::network::HttpClient"
